@@ -29,7 +29,10 @@ func runC13(p *core.Program, r *core.Report) {
 	c := rc{p, r}
 	noAnswerBeforeTheScan(c, "gogu.IndexOf", "gogu.FindIndex", "gogu.LastIndexOf", "gogu.FindLastIndex", "gogu.Contains", "gogu.Some", "gogu.Every", "gogu.FindAll", "gogu.FindMin", "gogu.FindMinBy", "gogu.FindMinByKey", "gogu.FindMax", "gogu.FindMaxBy", "gogu.FindMaxByKey", "gogu.Min", "gogu.Max", "gogu.Sum", "gogu.SumBy", "gogu.Mean")
 	resultUntouchedAfterTheScan(c, "gogu.IndexOf", "gogu.FindIndex", "gogu.LastIndexOf", "gogu.FindLastIndex", "gogu.Contains", "gogu.Some", "gogu.Every", "gogu.FindAll", "gogu.FindMin", "gogu.FindMinBy", "gogu.FindMinByKey", "gogu.FindMax", "gogu.FindMaxBy", "gogu.FindMaxByKey", "gogu.Min", "gogu.Max", "gogu.Sum", "gogu.SumBy", "gogu.Mean")
+	positionBlind(c, "gogu.IndexOf", "gogu.FindIndex", "gogu.LastIndexOf", "gogu.FindLastIndex", "gogu.Contains", "gogu.Some", "gogu.Every", "gogu.FindAll", "gogu.FindMin", "gogu.FindMinBy", "gogu.FindMinByKey", "gogu.FindMax", "gogu.FindMaxBy", "gogu.FindMaxByKey", "gogu.Min", "gogu.Max", "gogu.Sum", "gogu.SumBy", "gogu.Mean")
 	hygiene(c, "find.go", "math.go", "generic.go", "range.go")
+	// Range takes at most three arguments
+	noSingledOutValue(c, []string{"find.go", "math.go", "generic.go", "range.go"}, map[int64]string{2: "a number of arguments of Range", 3: "the number of arguments Range accepts"})
 	checkRange(c)
 	checkNth(c)
 
@@ -119,6 +122,28 @@ func runC13(p *core.Program, r *core.Report) {
 				bc, isC := path.BoolConst(rv)
 				okM = isC && bc == (s.onMatch == "true")
 			}
+		}
+		// nothing but the stated test decides inside the scan: every element reaches it
+		{
+			loop := map[*ssa.BasicBlock]bool{}
+			for _, h := range fn.Blocks {
+				if l := path.NaturalLoop(h); l[matchIf.Block()] {
+					for b := range l {
+						loop[b] = true
+					}
+				}
+			}
+			var extra *ssa.If
+			for b := range loop {
+				if iff := path.BlockIf(b); iff != nil && iff != matchIf && len(path.NaturalLoop(b)) == 0 {
+					extra = iff
+				}
+			}
+			pos := p.InstrPos(matchIf)
+			if extra != nil {
+				pos = p.InstrPos(extra)
+			}
+			c.ob("PT5", s.name, "only the stated test decides inside the scan", pos, extra == nil, "the loop branches on something besides its own continuation and the test on the element: some elements never reach the test")
 		}
 		c.ob("PT5", s.name, "first match decides at once", p.InstrPos(matchIf), okM, "on a match the function must return "+s.onMatch+" immediately (the first match in scan order decides)")
 		// every other return: the default, reached only through the loop's exit
